@@ -287,6 +287,7 @@ def build_with_history(ctx, spec, mode, hseed, kw=None, prefer=None):
             d["parents"], d["via_rail"] = [rng.choice(wrong)], [False]
             so = fresh(detour)
             analyse(so)
+            so = maybe_copy(so)
             so.del_comp(lf["name"])
             S.add_one(so, spec, lf, ns)
             if lf.get("phase") is not None:
@@ -371,9 +372,14 @@ def build_with_history(ctx, spec, mode, hseed, kw=None, prefer=None):
         # grows): every later call must see the structure as it is then, not as it was at the last report
         first = spec["comps"][0]
         so = ns.System(spec.get("name", "sys"), S.make_comp(ns, first), group=first.get("group", ""), rail=first.get("rail", ""))
+        copied = False
         for c in spec["comps"][1:]:
             if rng.random() < 0.45:
                 analyse(so)
+                if not copied and rng.random() < 0.5:
+                    so2 = maybe_copy(so)  # (the half-built, analysed system is copied; the build continues on the copy)
+                    copied = so2 is not so
+                    so = so2
             S.add_one(so, spec, c, ns)
         if rng.random() < 0.5:
             analyse(so)
